@@ -111,7 +111,7 @@ class Spec:
     def correspondence(self, ctx):
         out = {'cases': 0, 'disagreements': [], 'streams': {}, 'skipped': 0, 'samples': [], 'distinct_nontrivial': 0}
         seen = set()
-        for name, cases in self.streams(ctx):
+        for name, cases in list(self.streams(ctx)) + scenario_streams(ctx):
             cases = [c for c in cases if not excluded(c)]
             if not cases:
                 continue
@@ -225,6 +225,28 @@ class Spec:
             if r and r != 'SKIP':
                 return 'model and implementation differ: ' + r
         return None
+
+
+# scenario families (harness/scenarios.py) per property: structured interaction matrices next to the random streams
+SCEN = {'C01': ['attrs', 'blockdefs', 'macros'], 'C02': ['macros', 'lists'], 'C03': ['blockdefs', 'attrs', 'inline'],
+        'C04': ['options', 'blockdefs'], 'C05': ['blockdefs', 'options', 'repeat'], 'C06': ['inline', 'lists'],
+        'C07': ['inline'], 'C08': ['dispatch', 'attrs'], 'C09': ['inline', 'dispatch'], 'C10': ['lists'],
+        'C11': ['macros'], 'C12': ['attrs', 'lists'], 'C13': ['lists', 'ids'], 'C14': ['repeat', 'options'],
+        'C15': ['ids'], 'C16': ['dispatch', 'lists'], 'C17': ['inline', 'dispatch'], 'C19': ['options', 'blockdefs', 'macros'],
+        'C20': ['options']}
+
+
+def scenario_streams(ctx):
+    import scenarios
+    out = []
+    for f in SCEN.get(ctx.pid, []):
+        cs = scenarios.family(f, ctx.quick, share=700)
+        if ctx.pid == 'C16':
+            # the same documents with a trailing terminator, and in CR LF
+            cs = [dict(c, calls=[dict(k, src=k['src'] + t) for k in c['calls']]) for c in cs[::3] for t in ('\n', '\r\n', '\r')] + \
+                 [dict(c, calls=[dict(k, src=k['src'].replace('\n', '\r\n')) for k in c['calls']]) for c in cs[1::3]]
+        out.append(('Z' + f, cs))
+    return out
 
 
 def sizes(ctx, quick, thorough):
@@ -1039,7 +1061,15 @@ class C07(ExpectSpec):
            ('<a.b|x><c.d|y>', 0, '<p><a href="a.b">x</a><a href="c.d">y</a></p>', 'adjacent-links'),
            ('<j@k.lm><n@o.pq>', 0, '<p><a href="mailto:j@k.lm">j@k.lm</a><a href="mailto:n@o.pq">n@o.pq</a></p>', 'adjacent-links'),
            ('a_b_c x_y', 0, '<p>a_b_c x_y</p>', 'underscore-in-word'), ('line \\\nbreak', 0, '<p>line<br>\nbreak</p>', 'line-break'),
-           ('&amp;&lt;&#160;', 0, '<p>&amp;&lt;&#160;</p>', 'entities'), ('a & b < c > d', 3, '<p>a &amp; b &lt; c &gt; d</p>', 'specials')]
+           ('&amp;&lt;&#160;', 0, '<p>&amp;&lt;&#160;</p>', 'entities'), ('a & b < c > d', 3, '<p>a &amp; b &lt; c &gt; d</p>', 'specials'),
+           ('[H<sub>2</sub>O](water.html)', 0, '<p><a href="water.html">H<sub>2</sub>O</a></p>', 'tag-in-caption'),
+           ('^[H<sub>2</sub>O](w.html)', 0, '<p><a href="w.html" target="_blank">H<sub>2</sub>O</a></p>', 'tag-in-caption'),
+           ('[a <!-- c --> b](u)', 0, '<p><a href="u">a <!-- c --> b</a></p>', 'tag-in-caption'),
+           ('[a](http://a.b/*x*) *y*', 0, '<p><a href="http://a.b/*x*">a</a> <em>y</em></p>', 'url-not-reinterpreted'),
+           ('<b title="*x*">t</b> *y*', 0, '<p><b title="*x*">t</b> <em>y</em></p>', 'tag-not-reinterpreted'),
+           ('*[a](u)*', 0, '<p><em><a href="u">a</a></em></p>', 'link-in-quote'), ('[*a*](u)', 0, '<p><a href="u"><em>a</em></a></p>', 'quote-in-caption'),
+           ('`[a](u)` `<b>` `&amp;` `http://x.y`', 0, '<p><code>[a](u)</code> <code>&lt;b&gt;</code> <code>&amp;amp;</code> <code>http://x.y</code></p>', 'code-verbatim'),
+           ('![a](i.png) <image:j.png|b> x', 0, '<p><img src="i.png" alt="a"> <img src="j.png" alt="b"> x</p>', 'images')]
 
     def streams(self, ctx):
         rng = ctx.rng('G')
@@ -1051,6 +1081,8 @@ class C07(ExpectSpec):
     def gen_case(self, rng):
         mode = rng.choice([0, 0, 1, 4, 9, 12])
         src, html, has_defs = G.inline_paragraph(rng, extra_quotes=(mode == 0 and rng.random() < 0.3))
+        if (mode & 3) and any(t in src for t in ('<sub>2</sub>', '<!-- c -->', '<br>')):
+            mode = 0   # captions with inline tags: raw HTML policy only
         c = H([call(src, safeMode=mode if not has_defs else 0, reset=True, cb=True)])
         c['meta'] = {'expect': html, 'kind': 'inline'}
         return c
